@@ -224,7 +224,11 @@ class LitJudge(Judge):
                     from semcheck import project_api, canon
                     ex = {(n.name, d.name): sorted((k, repr(v.value)) for k, v in d.get_examples().items())
                           for n in api.namespaces.values() for d in n.data_types}
-                    outs.append(('api', canon(sorted(project_api(api), key=lambda x: x['ns'])), repr(sorted(ex.items()))))
+                    imps = sorted((n.name, [x.name for x in n.get_imported_namespaces(consider_annotations=True,
+                                                                                       consider_annotation_types=True)])
+                                  for n in api.namespaces.values())
+                    outs.append(('api', canon(sorted(project_api(api), key=lambda x: x['ns'])), repr(sorted(ex.items())),
+                                 repr(imps)))
                 except InvalidSpec:
                     outs.append(('invalid',))
                 except Exception as e:
